@@ -48,7 +48,11 @@ type step struct {
 	Post  post    `json:"post"`
 	Floor int     `json:"floor"`
 	Svc   string  `json:"svc"`
+	// RfInit: the specification's running event filter exists after the step (nil: not recorded)
+	RfInit *bool `json:"rfinit,omitempty"`
 }
+
+func (s step) lazy() bool { return s.RfInit != nil && !*s.RfInit }
 
 type only struct {
 	Step int    `json:"step"`
@@ -138,6 +142,8 @@ func diffDisk(exp, obs post, legacy bool) (string, any, any) {
 		return "state-history", exp.Hist, obs.Hist
 	case exp.Oldest != obs.Oldest:
 		return "oldest-retained", exp.Oldest, obs.Oldest
+	case exp.Win != nil && !eqInts(exp.Win, obs.Win):
+		return "persisted-event-filter-windows", exp.Win, obs.Win
 	}
 	return "", nil, nil
 }
@@ -237,6 +243,14 @@ func (r *runner) play(w *world, conform bool, interrupt *only) (dumps map[int][]
 			}
 			alive = true
 			res = opResult{kind: "ok"}
+		case "InitFilter":
+			// first use of the event index after a start: an event query over the head block
+			h := uint64(w.height())
+			if _, err := w.scan(w.node.BC, h, h, 100000); err != nil {
+				r.diverge("events:first-use-fails", fmt.Sprintf("the first event query after a restart (step %d of [%s]) fails: %v", i, opsString(b), err), i, nil, nil, interrupt)
+				return dumps, false
+			}
+			res = opResult{kind: "ok"}
 		case "DeliverHead", "DeliverL1":
 			j := i + 1
 			for j < len(b) && b[j].A.Name == "PruneStep" {
@@ -288,6 +302,7 @@ func (r *runner) play(w *world, conform bool, interrupt *only) (dumps map[int][]
 		default:
 			panic("prune engine: unknown action " + s.A.Name)
 		}
+		w.lazyIndex = b[last].lazy()
 		want := b[last].Res
 		if conform {
 			wk := want.Kind
@@ -334,6 +349,7 @@ func (r *runner) play(w *world, conform bool, interrupt *only) (dumps map[int][]
 
 // finale: the chain must still be extendable and revertible down to the oldest retained block.
 func (r *runner) finale(w *world, o *only) {
+	w.lazyIndex = false
 	if w.height() < w.c.MaxH+1 {
 		if err := w.newBlock(true); err != nil {
 			r.diverge("extend-fails", fmt.Sprintf("after [%s] the chain cannot be extended: %v", opsString(r.b), err), len(r.b), nil, nil, o)
@@ -478,6 +494,7 @@ func (r *runner) trial(at, last, k int, mode string, ref []faultkv.KV) {
 	if _, ok := r.play(w, false, o); !ok {
 		return
 	}
+	w.lazyIndex = false
 	if err := w.restart(); err != nil {
 		r.diverge("restart-fails", fmt.Sprintf("restart after %s at mutation %d of the prune at step %d of [%s]: %v", mode, k, at, opsString(r.b), err), at, nil, nil, o)
 		return
